@@ -62,6 +62,7 @@ type OpSpec struct {
 	Given    map[string][]string
 	Alias    map[string]string
 	Track    []string // further event patterns that are part of a callback's observable behaviour (collector calls...)
+	Otherwise [][2]string // guard, callee: declared constructor paths that return another observable instead
 }
 
 var onRe = regexp.MustCompile(`^([A-Za-z@_0-9.]+)\s*\(([^)]*)\)\s*(?:when\s+(.*?))?\s*:\s*(.*)$`)
@@ -157,6 +158,13 @@ func parseOpSpec(b *Block) (*OpSpec, error) {
 					sp.Alias[kv[0]] = kv[1]
 				}
 			}
+		case "otherwise":
+			// otherwise <guard> : returns <Callee>() - a declared way for the constructor to return without building this operator
+			kv := strings.SplitN(c.Text, ":", 2)
+			if len(kv) != 2 || !strings.HasPrefix(strings.TrimSpace(kv[1]), "returns ") {
+				return nil, fmt.Errorf("%s:%d: otherwise <guard> : returns <Callee>()", shortFile(c.File), c.Line)
+			}
+			sp.Otherwise = append(sp.Otherwise, [2]string{strings.TrimSpace(kv[0]), strings.TrimSpace(strings.TrimPrefix(strings.TrimSpace(kv[1]), "returns "))})
 		case "props", "note", "teardown", "mode", "userfn", "inline":
 		default:
 			return nil, fmt.Errorf("%s:%d: unknown operator clause %q", shortFile(c.File), c.Line, c.Kind)
@@ -520,7 +528,7 @@ func (mr *machineRun) run() {
 		}
 	}
 	mr.runInit()
-	mr.runRequires()
+	mr.runConstruct()
 }
 
 func (mr *machineRun) newExec() (*Exec, *State) {
@@ -1141,15 +1149,14 @@ func (e *Env) evalAny(expr string) (SVal, error) {
 
 var _ = ast.NewIdent
 
-// runRequires: the operator's `requires` clauses are preconditions of the subscribe function. They are assumed in
-// every callback, so they must be established where the observable is constructed: the constructor function (and the
-// func(source) closure it returns) is executed for all parameters, and at the observable-constructor call the
-// clauses are proved from the path condition (argument checks such as `if count == 0 { return Empty() }`).
-// The cells they mention may not be written by the subscription (they would not be stable).
-func (mr *machineRun) runRequires() {
-	if len(mr.sp.Requires) == 0 {
-		return
-	}
+// runConstruct: what the operator's constructor does before any subscription. The constructor function (and the
+// func(source) closure it returns) is executed for all parameters:
+//   - requires-established: the `requires` clauses are preconditions of the subscribe function; they are assumed in every
+//     callback, so they are proved at the observable-constructor call from the path condition (argument checks such as
+//     `if count < 0 { panic }`); the cells they mention may not be written by the subscription;
+//   - every-path-builds-the-operator: a path that returns without reaching the observable constructor (a shortcut such as
+//     `if count == 0 { return Empty() }`) must be one of the contract's `otherwise <guard> : returns <Callee>()` clauses.
+func (mr *machineRun) runConstruct() {
 	idRe := regexp.MustCompile(`[A-Za-z_][A-Za-z0-9_]*`)
 	written := cellsWrittenBy(mr.site.Closures)
 	for _, c := range mr.sp.Requires {
@@ -1172,6 +1179,11 @@ func (mr *machineRun) runRequires() {
 			return
 		}
 		reached++
+		st.Named["ctor-reached"] = "true"
+		pcs = append(pcs, append([]string{}, st.PC...))
+		if len(mr.sp.Requires) == 0 {
+			return
+		}
 		env := mr.env(x, st, map[string]SVal{})
 		var gs []string
 		for _, c := range mr.sp.Requires {
@@ -1183,7 +1195,6 @@ func (mr *machineRun) runRequires() {
 			gs = append(gs, g)
 		}
 		x.obl(st, "requires-established", and(gs...), "the operator's requires clauses hold whenever the observable is constructed (the constructor's argument checks establish them)", ev.Pos)
-		pcs = append(pcs, append([]string{}, st.PC...))
 	}
 	h.Callee = func(fn *ssa.Function) *CalleeSpec { return nil }
 	x.H = h
@@ -1195,7 +1206,29 @@ func (mr *machineRun) runRequires() {
 			st.Heap[p.Name()] = v // a parameter that no closure captures: visible to requires under its own name
 		}
 	}
-	collect := func(s2 *State) {
+	finish := func(s2 *State, ex Exit) {
+		if ex.Kind == ExitReturn && s2.Named["ctor-reached"] != "true" {
+			// a shortcut: must be declared
+			env := mr.env(x, s2, map[string]SVal{})
+			var alts []string
+			for _, o := range mr.sp.Otherwise {
+				g, err := env.evalBool(o[0])
+				if err != nil {
+					mr.u.Errs = append(mr.u.Errs, fmt.Sprintf("%s: otherwise %s: %v", mr.sp.Name, o[0], err))
+					continue
+				}
+				isCallee := len(ex.Results) == 1 && (ex.Results[0].Src == o[1] || (ex.Results[0].Fn != nil && funcKey(ex.Results[0].Fn) == o[1]))
+				alts = append(alts, and(g, boolLit(isCallee)))
+			}
+			what := "?"
+			if len(ex.Results) == 1 {
+				what = ex.Results[0].Src
+				if what == "" && ex.Results[0].Fn != nil {
+					what = funcKey(ex.Results[0].Fn)
+				}
+			}
+			x.obl(s2, "every-path-builds-the-operator", or(alts...), "a constructor path returns "+what+" instead of building the operator, and the contract declares no such shortcut (otherwise <guard> : returns <Callee>())", mr.top.Pos())
+		}
 		for _, o := range s2.Obls {
 			byName[o.Name] = append(byName[o.Name], o)
 			if _, ok := notes[o.Name]; !ok {
@@ -1216,7 +1249,7 @@ func (mr *machineRun) runRequires() {
 			mr.u.Errs = append(mr.u.Errs, fmt.Sprintf("%s/construct: %s", mr.sp.Name, s2.Err))
 			return
 		}
-		if ex.Kind == ExitReturn && len(ex.Results) == 1 && ex.Results[0].K == KClosure && inTree(ex.Results[0].Fn, mr.site.CtorCall.Parent()) {
+		if ex.Kind == ExitReturn && len(ex.Results) == 1 && (ex.Results[0].K == KClosure || ex.Results[0].K == KFn) && ex.Results[0].Fn != nil && inTree(ex.Results[0].Fn, mr.site.CtorCall.Parent()) {
 			cl := ex.Results[0]
 			var ps []SVal
 			for _, p := range cl.Fn.Params {
@@ -1227,16 +1260,25 @@ func (mr *machineRun) runRequires() {
 					mr.u.Errs = append(mr.u.Errs, fmt.Sprintf("%s/construct: %s", mr.sp.Name, s3.Err))
 					return
 				}
-				collect(s3)
+				finish(s3, ex3)
 			})
 			return
 		}
-		collect(s2)
+		finish(s2, ex)
 	})
 	if reached == 0 {
-		mr.u.Errs = append(mr.u.Errs, fmt.Sprintf("%s: the observable constructor call was not reached from the operator's entry; requires cannot be established", mr.sp.Name))
+		mr.u.Errs = append(mr.u.Errs, fmt.Sprintf("%s: the observable constructor call was not reached from the operator's entry", mr.sp.Name))
 	}
-	only := map[string][]Obl{"requires-established": byName["requires-established"]}
+	only := map[string][]Obl{}
+	for _, n := range []string{"requires-established", "every-path-builds-the-operator"} {
+		if len(byName[n]) > 0 {
+			only[n] = byName[n]
+		}
+	}
+	if _, ok := only["every-path-builds-the-operator"]; !ok {
+		only["every-path-builds-the-operator"] = []Obl{{Name: "every-path-builds-the-operator", Goal: "true", PC: nil}}
+		notes["every-path-builds-the-operator"] = "every returning path of the constructor builds the operator"
+	}
 	mr.emit(x, "construct", only, notes, pcs, x.pos(mr.top.Pos()))
 }
 
